@@ -333,7 +333,12 @@ C16_State(S) == InvEmptyChan(S) /\
 C16_Step(S, c, cmd, R) ==
     /\ \A x \in DOMAIN R.st.chans \ DOMAIN S.chans :      \* born: without restrictions, creator founder+operator
           /\ Registered(S, c) /\ cmd.verb = "JOIN"
-          /\ R.st.chans[x] = FreshChannel(NickOf(S, c))
+          /\ LET ch == R.st.chans[x]
+                 n == NickOf(S, c)
+             IN /\ ch.members = (n :> {"q", "o"})
+                /\ ch.rs = [r \in RankSet |-> IF r \in {"q", "o"} THEN {n} ELSE {}]
+                /\ ch.flags = {} /\ ch.key = <<>> /\ ch.limit = <<>> /\ ch.ban = {} /\ ch.exc = {} /\ ch.invex = {}
+                /\ ch.topic = <<>> /\ ~ch.preconf /\ ch.def = EmptyRs
     /\ \A x \in DOMAIN S.chans \cap DOMAIN R.st.chans :
           /\ R.st.chans[x].preconf = S.chans[x].preconf /\ R.st.chans[x].def = S.chans[x].def
           /\ cmd.verb = "JOIN" => \A n \in Members(R.st.chans[x]) \ Members(S.chans[x]) :    \* configured ranks on every join
@@ -344,6 +349,8 @@ C16_Step(S, c, cmd, R) ==
 C19_Step(S, c, cmd, R) ==
     /\ InvCounters(S) => InvCounters(R.st)
     /\ R.st.maxUsers >= S.maxUsers
+    /\ (S.maxUsers >= Cardinality(DOMAIN S.users)) =>       \* the maximum is the high-water mark: it follows the user count up, never down
+          R.st.maxUsers = IF Cardinality(DOMAIN R.st.users) > S.maxUsers THEN Cardinality(DOMAIN R.st.users) ELSE S.maxUsers
     /\ (Ok(S, c, cmd) /\ cmd.verb = "LUSERS") =>
           LET nu == Cardinality(DOMAIN S.users)
               inv == Cardinality({n \in DOMAIN S.users : "i" \in S.users[n].modes})
@@ -356,6 +363,11 @@ C19_Step(S, c, cmd, R) ==
              /\ arg("265") = <<NatToStr(nu), NatToStr(S.maxUsers)>>
     /\ (Ok(S, c, cmd) /\ cmd.verb = "ISON") =>
           {m.a[1] : m \in {y \in ToSet(R.out) : y.c = "303i"}} = ToSet(cmd.p[1]) \cap DOMAIN S.users
+    /\ (Ok(S, c, cmd) /\ cmd.verb = "USERHOST") =>
+          {m.a[1] : m \in {y \in ToSet(R.out) : y.c = "302i"}} =
+             { n \o (IF "o" \in S.users[n].modes \/ "O" \in S.users[n].modes THEN "*" ELSE "") \o "="
+                 \o (IF S.users[n].away # <<>> THEN "-" ELSE "+") \o "~" \o S.users[n].uname \o "@" \o S.users[n].host :
+               n \in ToSet(cmd.p[1]) \cap DOMAIN S.users }
 
 AllStepProps(S, c, cmd, R) ==
     /\ C01_Step(S, c, cmd, R) /\ C02_Step(S, c, cmd, R) /\ C03_Step(S, c, cmd, R) /\ C04_Step(S, c, cmd, R)
